@@ -59,3 +59,21 @@ impl FileSystem for DefaultFileSystem {
         Ok(())
     }
 }
+
+/// Verification hook: public wrappers of the crate-private position conversion functions.
+#[cfg(feature = "verif")]
+pub mod verif {
+    use std::ops::Range;
+
+    pub fn position_to_utf8(text: &str, position: lsp_types::Position) -> usize {
+        crate::lsp::unicode::position_to_utf8(text, position)
+    }
+
+    pub fn utf8_to_position(text: &str, index: usize) -> lsp_types::Position {
+        crate::lsp::unicode::utf8_to_position(text, index)
+    }
+
+    pub fn utf8_range_to_position(text: &str, range: Range<usize>) -> lsp_types::Range {
+        crate::lsp::unicode::utf8_range_to_position(text, range)
+    }
+}
